@@ -256,6 +256,9 @@ class GeckoAsyncSpaMan(ABC, AsyncTasks):
             await self._spa.disconnect()
             self._spa = None
         self._facade = None
+        # The sequence pump may have located spas while the client was being told
+        # about the disconnect above, IDLE with descriptors would be a dead end
+        self._spa_descriptors = None
         self._spa_state = GeckoSpaState.IDLE
 
     async def async_locate_spas(
